@@ -455,7 +455,7 @@ func c10Scenarios(th bool) []*Scn {
 }
 
 func c10Check(c *harness.Ctx) {
-	scns := c10Scenarios(c.Thorough())
+	scns := withLegacy(c10Scenarios(c.Thorough()), legacyEvery(c.Thorough(), 4))
 	c.Res.Extra["scenarios_total"] = float64(len(scns)) / float64(max(c.Of, 1))
 	for i, s := range scns {
 		if !c.Mine(i) {
